@@ -190,7 +190,7 @@ rc::Gen<tcase_t> gen_tcase()
                                {
                                    count *= static_cast<size_t>(d);
                                }
-                               return rc::gen::map(rc::gen::tuple(rc::gen::container<std::vector<uint64_t>>(count, gen_element(type, style)), gen::range<int>(0, 2),
+                               return rc::gen::map(rc::gen::tuple(rc::gen::noShrink(rc::gen::container<std::vector<uint64_t>>(count, gen_element(type, style))), gen::range<int>(0, 2),
                                                                   gen::range<uint64_t>(1, uint64_t(1) << 40)),
                                                    [=](const std::tuple<std::vector<uint64_t>, int, uint64_t>& eps)
                                                    {
@@ -952,7 +952,8 @@ rc::Gen<mcase_t> gen_mcase()
             return rc::gen::mapcat(
                 // every input has at least one value: an entirely missing categorical input makes the table weak learners
                 // index an empty score table (crash inside fitting: C10's subject, not this property's)
-                rc::gen::map(verif::ds::gen_data(o),
+                // (the dataset and the residuals are not shrunk: every shrink attempt costs a fit and a full sweep)
+                rc::gen::map(rc::gen::noShrink(verif::ds::gen_data(o)),
                              [](data_spec_t data)
                              {
                                  for (auto& mask : data.mask)
@@ -1002,7 +1003,7 @@ rc::Gen<mcase_t> gen_mcase()
                     return rc::gen::map(
                         rc::gen::tuple(rc::gen::mapcat(gen::range<int>(0, 12), [](int n) { return rc::gen::container<std::vector<double>>(static_cast<size_t>(n), gen::real(0.0, 1.0)); }),
                                        rc::gen::mapcat(gen::range<int>(1, 4), [](int n) { return rc::gen::container<std::vector<int>>(static_cast<size_t>(n), gen::range<int>(0, 7)); }),
-                                       rc::gen::container<std::vector<double>>(static_cast<size_t>(data.samples) * tsize, rc::gen::oneOf(gen::sym(2.0), gen::smallint(-2, 2))),
+                                       rc::gen::noShrink(rc::gen::container<std::vector<double>>(static_cast<size_t>(data.samples) * tsize, rc::gen::oneOf(gen::sym(2.0), gen::smallint(-2, 2)))),
                                        gen::range<int>(0, 11), gen::range<int>(10, 40), gen::range<int>(0, 1), gen::range<int>(0, 1), rc::gen::element(0, 0, 1), gen::range<uint64_t>(1, uint64_t(1) << 40)),
                         [kind, data](const auto& t)
                         {
